@@ -69,7 +69,7 @@ MIN = {
     'haz:nonascii': 150, 'haz:meta': 300, 'haz:inner_tilde': 50,
     'export_checked': 4000,
 }
-NCASES = {'quick': 480, 'thorough': 8000}
+NCASES = {'quick': 480, 'thorough': 5000}
 CASE_TIMEOUT = 60
 
 # ------------------------------------------------------------------ alphabet
@@ -149,7 +149,10 @@ def gen_tilde_odd(rng):
     w = lambda: ''.join(rng.choice(SAFE_LETTERS)
                         for _ in range(rng.randint(1, 3)))
     odd = rng.choice(list(";&|()<>'#*?[]{}!=,@%^") + UNI_WORDS + [' '])
-    name = rng.choice(['', w()]) + odd + rng.choice(['', w()])
+    # a blank must stay inside the prefix (a stripped "~0 " would be the
+    # directory-stack form ~0, which is a login-like prefix after all)
+    name = rng.choice(['', w()]) + odd + (
+        w() if odd == ' ' else rng.choice(['', w()]))
     v = '~' + name
     if rng.random() < 0.4:
         v += '/' + w() + rng.choice(['', ' ' + w()])
@@ -545,6 +548,13 @@ def judge_section(ctx, items, func, block, err):
     fields = block[1:]
     for n, (it, w) in enumerate(zip(items, want)):
         attrs, got = fields[2 * n], fields[2 * n + 1]
+        if it['cls'] in ('tilde', 'tilde_odd'):
+            prefix = it['value'][1:].partition('/')[0]
+            if LOGIN_RE.match(prefix) and prefix not in _TILDE:
+                # login-like prefix without a bash reference (e.g. ~0):
+                # outside the generated classes, not judged
+                ctx.count('discard_tilde_prefix_without_reference')
+                continue
         ctx.count('vars_checked')
         ctx.count('class:' + it['cls'])
         ctx.count('form:' + it['form'])
